@@ -47,6 +47,7 @@ def run(ctx, rep):
     accumulate(rep, ctx.prog("Q"))
     run_loneabs(ctx, rep)
     whole_sign(rep, ctx.prog("Q"))
+    zero_unit(rep, ctx.prog("Q"))
     comma_ws(rep, ctx.prog("Q"))
     prog = ctx.prog("Q")
     rep.notes.append("Does not decide numeric round trips, fraction carry or option interactions.")
@@ -159,6 +160,46 @@ def whole_sign(rep, prog, rule="WHOLE-SIGN"):
                     rep.violation(rule, key, "the sign handed to the writer is %s, not signum() of the function's own span/duration"
                                   % show(sg, maxd=4)[:120], loc)
     rep.floor(rule + " writers", n, 3)
+
+
+def zero_unit(rep, prog, rule="ZERO-UNIT"):
+    """the unit a zero SignedDuration is printed with is one the duration parser accepts"""
+    from ..term import walk
+    rep.rule(rule, "every DesignatorWriter that a `print_duration*` function of the friendly printer creates gets a printer whose "
+                   "`zero_unit` is bounded by hours (min(.., Unit::Hour), or a constant unit of hours or smaller): the duration "
+                   "parser refuses days and bigger units even when their value is zero, so `0d` - what zero_unit(Unit::Day) "
+                   "printed for SignedDuration::ZERO - is text the parser rejects")
+    small = ("Hour", "Minute", "Second", "Millisecond", "Microsecond", "Nanosecond")
+    n = 0
+    for f in sorted(prog.fns.values(), key=lambda f: f.key):
+        if f.crate != "jiff" or f.is_closure or "fmt::friendly::printer::SpanPrinter::print_duration" not in f.path:
+            continue
+        T = None
+        for bi, t in mir.iter_calls(f):
+            p_ = t.get("path", "")
+            if "DesignatorWriter" in p_ and p_.endswith("::new") and len(t.get("args", [])) == 4:
+                T = T or Terms(f)
+                n += 1
+                pr = T.at_call(bi, t, 0)
+                key = "%s DesignatorWriter::new" % f.path.split("::")[-1]
+                loc = "%s:%s" % (t["span"]["file"], t["span"]["line"])
+                zs = []
+                for y in walk(pr):
+                    if isinstance(y, tuple) and y and y[0] == "agg" and y[1].endswith("SpanPrinter"):
+                        zs += [v for (nm, v) in y[3] if nm == "zero_unit"]
+                def bounded(z):
+                    if isinstance(z, tuple) and z and z[0] == "call" and z[1].rsplit("::", 1)[-1] == "min" and len(z[2]) == 2:
+                        return any(isinstance(a, tuple) and a and a[0] == "agg" and a[2] in small and not a[3] for a in z[2]) or \
+                            any(isinstance(a, tuple) and a and a[0] == "const" and str(a[1]).rsplit("::", 1)[-1] in small for a in z[2])
+                    if isinstance(z, tuple) and z and z[0] == "agg" and z[2] in small and not z[3]:
+                        return True
+                    return isinstance(z, tuple) and z and z[0] == "const" and str(z[1]).rsplit("::", 1)[-1] in small
+                if zs and all(bounded(z) for z in zs):
+                    rep.ok(rule, key, how="zero_unit = %s" % show(zs[0], maxd=3)[:60], loc=loc)
+                else:
+                    rep.violation(rule, key, "the writer's printer is %s: its zero_unit is whatever was configured, so a zero duration is "
+                                  "printed as `0d`/`0w`/`0mo`/`0y`, which parse_duration rejects" % show(pr, maxd=2)[:60], loc)
+    rep.floor(rule + " writers", n, 1)
 
 
 def comma_ws(rep, prog, rule="COMMA-WS"):
